@@ -142,7 +142,7 @@ def run(rep, tier):
     require(len(bad) >= 6, "C05: self-test events could not be built")
     _selftest(rep, bad, wd)
     tr = rep.notes["traces"]
-    require(tr["vectors"]["nontrivial"] >= (3000 if quick else 50000) and tr["seeded"]["nontrivial"] >= (800 if quick else 15000),
+    require(tr["vectors"]["nontrivial"] >= (3000 if quick else 30000) and tr["seeded"]["nontrivial"] >= (500 if quick else 12000),
             "C05: too few examined accepted steps (vacuity guard)")
     acc = Counter(rep.notes["vectors_detail"]["accepted_by_step"]) + Counter(rep.notes["seeded_detail"]["accepted_by_step"])
     for m in info["macros"]:
